@@ -3,6 +3,7 @@ package main
 // Loops: cut at the head with invariant, havoc of the modified locations, variant.
 
 import (
+	"fmt"
 	"go/ast"
 	"go/token"
 	"go/types"
@@ -269,7 +270,13 @@ func (fc *FuncCtx) loopContract(n ast.Node) (*LoopContract, int) {
 	fc.loopOrd++
 	ord := fc.loopOrd
 	if fc.contract == nil || fc.contract.Loops[ord] == nil {
-		fc.fail(n, "loop %d has no contract (invariant/decreases)", ord)
+		// no written contract: no invariant (everything the body assigns is unknown at the head); a counting
+		// loop gets its obvious variant, any other loop must be proved to terminate by a written one
+		lc := &LoopContract{Auto: true}
+		if fs, ok := n.(*ast.ForStmt); ok {
+			lc.Decreases = fc.autoVariant(fs)
+		}
+		return lc, ord
 	}
 	return fc.contract.Loops[ord], ord
 }
@@ -504,6 +511,18 @@ func (fc *FuncCtx) execRange(st *State, x *ast.RangeStmt, label string) *State {
 	}
 	st.ghost[ghostName] = mkMath("0")
 	st.ghost["range_i"] = mkMath("0")
+	// a range over a map visits every key exactly once (the map is checked not to be modified in the body):
+	// ghost set "visited" = keys already iterated; empty at entry, a subset of the domain at the head,
+	// equal to the domain at exit
+	seenName := "range_seen" + strconv.Itoa(ord)
+	var mapSort, keySort string
+	if isMap {
+		mapSort = fc.reg().SortOf(coll.T)
+		keySort = fc.reg().SortOf(coll.T.Underlying().(*types.Map).Key())
+		empty := Term{S: "((as const (Array " + keySort + " Bool)) false)", T: coll.T}
+		st.ghost[seenName] = empty
+		st.ghost["range_seen"] = empty
+	}
 	pre := st.clone()
 	fc.checkInvariants(st, lc, ord, "inv.init", pre, at, x)
 
@@ -519,6 +538,17 @@ func (fc *FuncCtx) execRange(st *State, x *ast.RangeStmt, label string) *State {
 	} else {
 		fc.assume(h, "(<= 0 "+idx.S+")")
 	}
+	var seen string
+	var seenNext Term
+	mapStable := false
+	if isMap {
+		mapStable = !fc.locsTouch(locs, x.X)
+		fc.nfresh++
+		seen = fmt.Sprintf("range_seen_%d", fc.nfresh)
+		fc.decls = append(fc.decls, fmt.Sprintf("(declare-const %s (Array %s Bool))", seen, keySort))
+		h.ghost[seenName] = Term{S: seen, T: coll.T}
+		h.ghost["range_seen"] = Term{S: seen, T: coll.T}
+	}
 	fc.assumeInvariants(h, lc, pre, at, x)
 
 	body := h.clone()
@@ -532,6 +562,13 @@ func (fc *FuncCtx) execRange(st *State, x *ast.RangeStmt, label string) *State {
 		s := fc.reg().SortOf(coll.T)
 		k := fc.fresh("range_k", mt.Key())
 		fc.assume(body, "(select (dom_"+s+" "+coll.S+") "+k.S+")")
+		if mapStable {
+			fc.assume(body, "(not (select "+seen+" "+k.S+"))")
+			seenNext = Term{S: "(store " + seen + " " + k.S + " true)", T: coll.T}
+			// every visited key is in the domain; at exit nothing is left
+			fc.assume(h, "(forall ((k "+keySort+")) (! (=> (select "+seen+" k) (select (dom_"+mapSort+" "+coll.S+") k)) :pattern ((select "+seen+" k))))")
+			fc.assume(exit, "(= "+seen+" (dom_"+mapSort+" "+coll.S+"))")
+		}
 		if x.Key != nil {
 			fc.bindRangeVar(body, x.Key, k, x.Tok == token.DEFINE)
 		}
@@ -571,6 +608,14 @@ func (fc *FuncCtx) execRange(st *State, x *ast.RangeStmt, label string) *State {
 		next := mkMath("(+ " + idx.S + " 1)")
 		end.ghost[ghostName] = next
 		end.ghost["range_i"] = next
+		if isMap {
+			// the key of this iteration joins the visited set at the end of the body (an inner loop may have
+			// overwritten the unnumbered alias)
+			if mapStable {
+				end.ghost[seenName] = seenNext
+			}
+			end.ghost["range_seen"] = end.ghost[seenName]
+		}
 		fc.checkInvariants(end, lc, ord, "inv.pres", pre, at, x)
 		if lc.Decreases != nil {
 			// explicit variant (optional for range loops, which terminate by construction)
@@ -617,4 +662,139 @@ func (fc *FuncCtx) checkSteps(end, bodyStart *State, lc *LoopContract, ord int, 
 		}
 		fc.oblige(end, "step", site, t.S, n, sc.Text)
 	}
+}
+
+// locsTouch reports whether one of the havoc locations may be (part of) the value of e.
+func (fc *FuncCtx) locsTouch(locs []havocLoc, e ast.Expr) bool {
+	root := func(e ast.Expr) *types.Var {
+		for {
+			switch x := e.(type) {
+			case *ast.Ident:
+				v, _ := fc.info.ObjectOf(x).(*types.Var)
+				return v
+			case *ast.SelectorExpr:
+				if id, ok := x.X.(*ast.Ident); ok {
+					if _, isPkg := fc.info.ObjectOf(id).(*types.PkgName); isPkg {
+						v, _ := fc.info.ObjectOf(x.Sel).(*types.Var)
+						return v
+					}
+				}
+				e = x.X
+			case *ast.ParenExpr:
+				e = x.X
+			case *ast.StarExpr:
+				e = x.X
+			case *ast.IndexExpr:
+				e = x.X
+			case *ast.UnaryExpr:
+				e = x.X
+			default:
+				return nil
+			}
+		}
+	}
+	r := root(e)
+	if r == nil {
+		return true
+	}
+	for _, l := range locs {
+		if l.obj != nil {
+			if l.obj == r {
+				return true
+			}
+			continue
+		}
+		if lr := root(l.base); lr == nil || lr == r {
+			return true
+		}
+	}
+	return false
+}
+
+// autoVariant: for `for ...; i < e; i++` (also <=, i += c with a positive literal, and the mirrored
+// decreasing forms) the variant e - i (resp. i - e); nil when the loop has another shape.
+func (fc *FuncCtx) autoVariant(fs *ast.ForStmt) *Clause {
+	cond, ok := unparen(fs.Cond).(*ast.BinaryExpr)
+	if fs.Cond == nil || !ok || fs.Post == nil {
+		return nil
+	}
+	var v ast.Expr
+	up := false
+	switch p := fs.Post.(type) {
+	case *ast.IncDecStmt:
+		v, up = p.X, p.Tok == token.INC
+	case *ast.AssignStmt:
+		if len(p.Lhs) != 1 || len(p.Rhs) != 1 {
+			return nil
+		}
+		lit, ok := p.Rhs[0].(*ast.BasicLit)
+		if !ok || lit.Kind != token.INT || lit.Value == "0" {
+			return nil
+		}
+		switch p.Tok {
+		case token.ADD_ASSIGN:
+			v, up = p.Lhs[0], true
+		case token.SUB_ASSIGN:
+			v, up = p.Lhs[0], false
+		default:
+			return nil
+		}
+	default:
+		return nil
+	}
+	id, ok := unparen(v).(*ast.Ident)
+	if !ok {
+		return nil
+	}
+	var bound ast.Expr
+	lhsIs := func(e ast.Expr) bool {
+		x, ok := unparen(e).(*ast.Ident)
+		return ok && x.Name == id.Name
+	}
+	extra := ""
+	switch {
+	case up && (cond.Op == token.LSS || cond.Op == token.LEQ) && lhsIs(cond.X):
+		bound = cond.Y
+	case up && (cond.Op == token.GTR || cond.Op == token.GEQ) && lhsIs(cond.Y):
+		bound = cond.X
+	case !up && (cond.Op == token.GTR || cond.Op == token.GEQ) && lhsIs(cond.X):
+		bound = cond.Y
+	case !up && (cond.Op == token.LSS || cond.Op == token.LEQ) && lhsIs(cond.Y):
+		bound = cond.X
+	default:
+		return nil
+	}
+	if cond.Op == token.LEQ || cond.Op == token.GEQ {
+		extra = " + 1"
+	}
+	// the bound must be expressible in the contract language: identifiers, selections, len(), literals
+	okExpr := true
+	ast.Inspect(bound, func(n ast.Node) bool {
+		switch x := n.(type) {
+		case *ast.Ident, *ast.SelectorExpr, *ast.BasicLit, *ast.ParenExpr:
+		case *ast.CallExpr:
+			if f, ok := x.Fun.(*ast.Ident); !ok || f.Name != "len" {
+				okExpr = false
+			}
+		case *ast.BinaryExpr:
+			if x.Op != token.ADD && x.Op != token.SUB {
+				okExpr = false
+			}
+		default:
+			okExpr = false
+		}
+		return okExpr
+	})
+	if !okExpr {
+		return nil
+	}
+	text := exprStr(bound) + " - " + id.Name + extra
+	if !up {
+		text = id.Name + " - (" + exprStr(bound) + ")" + extra
+	}
+	e, err := parseCExpr(text)
+	if err != nil {
+		return nil
+	}
+	return &Clause{Kind: "decreases", Text: text + " (derived from the loop header)", Expr: e, Src: "auto"}
 }
